@@ -61,7 +61,7 @@ def phases(tier: str) -> List[Dict[str, Any]]:
 
 def generate(seed: int, tier: str, phase: str) -> Dict[str, Any]:
     r = core.rng(seed, "workload")
-    plan: Dict[str, Any] = {"phase": phase, "timeout": 300, "shrink_budget": 60, "pseed": r.randrange(1 << 30),
+    plan: Dict[str, Any] = {"phase": phase, "timeout": 300, "shrink_budget": 320, "pseed": r.randrange(1 << 30),
                             "opts": {"vocab": "track", "depth": [1, r.choice([3, 6, 10])], "avoid": []}}
     ops: List[Dict[str, Any]] = []
     if phase == "known":
@@ -198,6 +198,8 @@ def execute(plan: Dict[str, Any]) -> Dict[str, Any]:
 
         with open(os.path.join(core.VERIF, plan["spec_file"])) as f:
             spec = json.load(f)["spec"]
+    elif plan.get("spec"):
+        spec = plan["spec"]  # an explicit (shrunk) program replaces the generated one
     else:
         spec = proggen.generate(random.Random(plan["pseed"]), plan["opts"])
     sig = "/".join(_opseq(spec))
@@ -466,6 +468,19 @@ def neutralise(plan: Dict[str, Any], finding: Dict[str, Any]) -> Optional[Dict[s
 
 
 def simplify(plan: Dict[str, Any]) -> Iterable[Dict[str, Any]]:
+    if plan.get("spec_file"):
+        return
+    import random
+
+    from models import proggen, shrinkspec
+
+    base = plan.get("spec") or proggen.generate(random.Random(plan["pseed"]), plan["opts"])
+    for cand in shrinkspec.candidates(base):
+        c = copy.deepcopy(plan)
+        c["spec"] = cand
+        yield c
+    if plan.get("spec"):
+        return
     lo, hi = plan["opts"]["depth"]
     for new_hi in (1, 2, 4):
         if new_hi < hi:
